@@ -117,9 +117,90 @@ Theorem C07_spec_exact : forall s o, Forall (fun i => ti_many i = false) (o_test
 Proof. exact spec_exact. Qed.
 Print Assumptions C07_spec_exact.
 
-(* the executable oracle used on the implementation's observations accepts every model observation *)
-Theorem C07_run_meets_spec : forall s, valid s = true -> spec s (run s) = true.
+(* programs with the runner's plugin only: the oracle accepts every model observation *)
+Theorem C07_single_plugin_run_meets_spec : forall s, valid s = true -> spec s (run s) = true.
 Proof. exact run_meets_spec. Qed.
+Print Assumptions C07_single_plugin_run_meets_spec.
+
+(* --------------------------------------------------------------------------------------------------------------
+   SEVERAL MemoryLeakWarningPlugin INSTANCES IN ONE PROCESS (C07_ModelM.v, proofs C07_Multi.v): the runner's plugin plus further
+   plugins constructed and destroyed before / between / inside tests, on a private detector or on the runner's ("the global") one;
+   firstPlugin_ as state (serial of the object it points to; 0 = the runner's plugin).
+   -------------------------------------------------------------------------------------------------------------- *)
+From CppUVerif Require Import C07_ModelM C07_Multi.
+
+(* firstPlugin_ is written once: whatever is constructed, destroyed, allocated, run or reported afterwards, it keeps pointing to
+   the same object *)
+Theorem C07_first_plugin_written_once : forall l x o, x_first x = Some o -> x_first (fold_left aux_step l x) = Some o.
+Proof. exact first_written_once. Qed.
+Print Assumptions C07_first_plugin_written_once.
+
+(* ... and that object is the first plugin constructed since it was NULL (serial x_next), in any order of later constructions and
+   destructions; when the runner's plugin is constructed while it is NULL, it is the runner's plugin for the rest of the process *)
+Theorem C07_first_plugin_is_first_constructed :
+  (forall l x, x_first x = None -> x_first (fold_left aux_step l x) = if existsb is_new l then Some (x_next x) else None) /\
+  (forall l x, x_first x = None -> x_first (fold_left aux_step l (x_main_ctor x)) = Some 0).
+Proof. exact (conj first_is_first_constructed main_first_forever). Qed.
+Print Assumptions C07_first_plugin_is_first_constructed.
+
+(* EXPECT_N_LEAKS / IGNORE_ALL_LEAKS_IN_TEST reach the object firstPlugin_ points to and nothing else: the runner's plugin when it
+   is the first one (no other instance changes); another instance otherwise (the runner's plugin does not notice) *)
+Theorem C07_macros_reach_first_plugin :
+  (forall st b, is_macro b = true -> x_first (snd st) = Some 0 -> mstep st (MS b) = (step (fst st) b, snd st)) /\
+  (forall st b o, is_macro b = true -> x_first (snd st) = Some o -> o <> 0 ->
+     existsb (fun i => i_serial i =? o) (x_insts (snd st)) = true ->
+     fst (mstep st (MS b)) = fst st /\
+     x_insts (snd (mstep st (MS b))) = map (fun i => if i_serial i =? o then with_w i (exec_stmt (i_w i) b) else i) (x_insts (snd st)) /\
+     x_err (snd (mstep st (MS b))) = x_err (snd st)).
+Proof. exact (conj macro_to_main macro_to_other). Qed.
+Print Assumptions C07_macros_reach_first_plugin.
+
+(* the other instances are invisible to the runner's plugin: every test's failures, verdict and report and the final report are
+   those of the program without the statements about other instances -- wherever those stand *)
+Theorem C07_other_instances_change_no_verdict : forall s, mvalid s = true -> mo_main (mrun s) = run (erase s).
+Proof. exact main_is_base_run. Qed.
+Print Assumptions C07_other_instances_change_no_verdict.
+
+(* hence the property's table for every test of such a program (EXPECT_N_LEAKS / IGNORE_ALL_LEAKS_IN_TEST count whatever instances
+   were constructed or destroyed before) *)
+Theorem C07_verdict_iff_with_other_instances : forall s i, mvalid s = true -> (i < length (m_tests s))%nat ->
+  let ex := executed (nth i (s_tests (erase s)) no_test) in
+  let o := nth i (o_tests (mo_main (mrun s))) no_item in
+  (ti_leak o = 1 <-> own_failures ex = 0 /\ asked_ignore ex = false /\ len (leaks_of (erase s) i) <> declared ex) /\
+  (ti_leak o = 0 \/ ti_leak o = 1) /\
+  ti_fail o = own_failures ex + ti_leak o.
+Proof. exact verdict_iff_multi. Qed.
+Print Assumptions C07_verdict_iff_with_other_instances.
+
+(* every instance's detector is in period `enabled` from the construction on, whenever none of its preTestActions is pending (in
+   particular up to its first preTestAction): at every point p of the run its FinalReport(k) is silent iff the number of blocks
+   obtained through its detector since its construction and not released is k, and lists exactly those otherwise *)
+Theorem C07_instance_enabled_from_construction : forall s p q al' j t, mvalid s = true -> mtrace s = p ++ q -> tfold [] p = Some al' ->
+  find_s tn_slot j al' = Some t -> tn_shared t = false -> tn_win t = None ->
+  exists i, find_s i_slot j (x_insts (fold_left aux_step p (x_main_ctor x_init))) = Some i /\
+    d_period (w_det (i_w i)) = SEnabled /\
+    forall k, let out := leaked 1 (tn_text t) in
+      (len out = k -> final_report (i_w i) k = (None, false)) /\
+      (len out <> k -> exists l, final_report (i_w i) k = (Some l, false) /\ Permutation (map ent l) out).
+Proof. exact instance_enabled. Qed.
+Print Assumptions C07_instance_enabled_from_construction.
+
+Theorem C07_new_instance_enabled : forall x j, exists i, find_s i_slot j (x_insts (aux_step x (MNew j false))) = Some i /\
+  d_period (w_det (i_w i)) = SEnabled /\ i_shared i = false.
+Proof. exact new_instance_enabled. Qed.
+Print Assumptions C07_new_instance_enabled.
+
+(* what the further instances report (their postTestAction's failure and report, their FinalReport) is what the text of the
+   statements made through THEIR detector demands by the same table; nothing dangles *)
+Theorem C07_instances_meet_their_text : forall s, mvalid s = true ->
+  mo_err (mrun s) = false /\ spec_insts [] (mtrace s) (mo_sec (mrun s)) = true.
+Proof. exact instances_good. Qed.
+Print Assumptions C07_instances_meet_their_text.
+
+(* the executable oracle used on the implementation's observations accepts every model observation (programs with any number of
+   plugin instances) *)
+Theorem C07_run_meets_spec : forall s, mvalid s = true -> mspec s (mrun s) = true.
+Proof. exact mrun_meets_mspec. Qed.
 Print Assumptions C07_run_meets_spec.
 
 (* --------------------------------------------------------------------------------------------------------------
